@@ -82,7 +82,7 @@ def motion_of(ch, rots):
 
 SPELLINGS = ['surf-tr12', 'surf-tr13', 'surf-startr', 'trcl-num', 'trcl-inline', 'trcl-star',
              'implicit-both', 'implicit-neg', 'implicit-pos', 'trcl-num-startr', 'both-tr-trcl', 'both-implicit',
-             'implicit-collide']
+             'implicit-collide', 'trcl-inline13', 'trcl-star13', 'surf-startr13']
 M2 = refsem.Motion((-0.5, 1.0, 0.25), refsem.rotation([0, 1, 0], 90.0).T)     # second motion for compositions
 
 
@@ -129,6 +129,8 @@ def build_state(kind, rname, m, spelling):
             st.data = ['tr7 ' + tr12]
         elif spelling == 'surf-tr13':
             st.data = ['tr7 ' + tr12 + ' 1']
+        elif spelling == 'surf-startr13':
+            st.data = ['*tr7 ' + tr_numbers(m, True) + ' 1']
         else:
             st.data = ['*tr7 ' + tr_numbers(m, True)]
         if kind in ('rpp', 'rcc'):
@@ -144,6 +146,10 @@ def build_state(kind, rname, m, spelling):
             kw = 'trcl=7'; st.data = ['*tr7 ' + tr_numbers(m, True)]
         elif spelling == 'trcl-inline':
             kw = 'trcl=(%s)' % tr12
+        elif spelling == 'trcl-inline13':
+            kw = 'trcl=(%s 1)' % tr12
+        elif spelling == 'trcl-star13':
+            kw = '*trcl=(%s 1)' % tr_numbers(m, True)
         else:
             kw = '*trcl=(%s)' % tr_numbers(m, True)
         st.cells = ['1 0 -1 %s imp:n=1' % kw, '2 0 1 %s imp:n=1' % kw]
